@@ -263,3 +263,25 @@ func H_C07_conc() {
 	c, _ := seq.Next()
 	verifrt.Assert(c > a && c > b, "a later Next returned a number not above the concurrent ones")
 }
+
+// H_C07_release_conc: Release racing with Next on one Sequence: whatever the interleaving, no number is handed
+// out twice, also not by a Next that follows, and not after a restart.
+//
+//verif:h prop=C07 preempt=2/3 cover=done
+func H_C07_release_conc() {
+	st := &c07Store{crashAt: -1, failAt: -1}
+	seq, _ := NewSequence(st, []byte("k"), uint64(2+verifrt.Choose("interval", 2)))
+	first, _ := seq.Next() // a lease exists
+	var a uint64
+	var wg sync.WaitGroup
+	wg.Add(2)
+	go func() { defer wg.Done(); a, _ = seq.Next() }()
+	go func() { defer wg.Done(); _ = seq.Release() }()
+	wg.Wait()
+	b, _ := seq.Next()
+	verifrt.Cover("done")
+	verifrt.Assert(a > first && b > a, "Release racing with Next made the sequence hand out a number twice")
+	seq2, _ := NewSequence(st, []byte("k"), 2)
+	c, _ := seq2.Next()
+	verifrt.Assert(c > b, "after Release raced with Next, a restarted sequence re-used a number")
+}
